@@ -14,7 +14,8 @@ def superset_at_the_wrap(spec, impl, case_text):
     invocation that is in progress when the counter wraps to call such callbacks as well.  So against the specification
     an implementation trace is accepted when, invocation by invocation (calls carry the invocation's argument), it
     contains the specification's calls in order, and every additional call is of a callback that some callback of the
-    case adds (i.e. one added during an invocation), at most once per invocation; all other trace lines are equal."""
+    case adds (i.e. one added during an invocation; a callback id may be added more than once); all other trace lines are
+    equal."""
     import re
     def split(tr):
         calls, rest = {}, []
@@ -42,7 +43,7 @@ def superset_at_the_wrap(spec, impl, case_text):
                 k += 1
             else:
                 extras.append(c)
-        if k != len(want) or len(set(extras)) != len(extras) or any(c not in added for c in extras):
+        if k != len(want) or any(c not in added for c in extras):
             return False
     return True
 
